@@ -106,7 +106,11 @@ pub fn cases(tier: Tier) -> Vec<Case> {
     let keep = if tier == Tier::Quick { 2 } else { 1 };
     for (i, t) in g1.all().into_iter().enumerate() {
         if t.n_nodes() <= 5 || i % keep == 0 {
-            out.push(Case::Hist { init: Init::Spec(t), ops: vec![Op::Elim] });
+            out.push(Case::Hist { init: Init::Spec(t.clone()), ops: vec![Op::Elim] });
+            if t.n_nodes() >= 5 && i % 4 == 0 {
+                // a root cache holding several user-stored sample inputs (all valid witnesses of the root)
+                out.push(Case::Hist { init: Init::Seeded(Box::new(Init::Spec(t)), vec![vec![-3.0], vec![-1.0], vec![0.5], vec![5.0]]), ops: vec![Op::Elim] });
+            }
         }
     }
     let g2 = TreeGen {
@@ -119,7 +123,15 @@ pub fn cases(tier: Tier) -> Vec<Case> {
     };
     for (i, t) in g2.all().into_iter().enumerate() {
         if t.n_nodes() <= 5 || i % (keep * 3) == 0 {
-            out.push(Case::Hist { init: Init::Spec(t), ops: vec![Op::Elim] });
+            out.push(Case::Hist { init: Init::Spec(t.clone()), ops: vec![Op::Elim] });
+            if t.n_nodes() >= 5 && i % 4 == 0 {
+                out.push(Case::Hist { init: Init::Seeded(Box::new(Init::Spec(t.clone())), vec![vec![-1.0, -1.0], vec![2.0, -1.0], vec![-1.0, 2.0], vec![2.0, 1.0]]), ops: vec![Op::Elim] });
+                // slicing with remove_axes (the removed coordinate is fixed to 0) between or before eliminations
+                for keep_first in [true, false] {
+                    out.push(Case::Hist { init: Init::Spec(t.clone()), ops: vec![Op::Elim, Op::RemoveAxes(vec![keep_first, !keep_first]), Op::Elim] });
+                    out.push(Case::Hist { init: Init::Spec(t.clone()), ops: vec![Op::RemoveAxes(vec![keep_first, !keep_first]), Op::Elim] });
+                }
+            }
         }
     }
     // nearly coincident parallel facets at a large offset: the "both inactive" region of the two neurons
